@@ -3,7 +3,7 @@ from vlib.report import Check
 from vlib import world
 
 FUNCS = ["task.WSGITask.get_environment", "parser.HTTPRequestParser.parse_header", "parser.HTTPRequestParser.received",
-         "receiver.FixedStreamReceiver.received", "receiver.ChunkedReceiver.received"]
+         "receiver.FixedStreamReceiver.received", "receiver.ChunkedReceiver.received", "parser.split_uri"]
 KEEP = ("C07", "get_environment", "ensures:appended", "ensures:remain", "ensures:consumed", "view-extends", "C01-no-transfer-encoding-left-on-1.1",
         "C01-length-is-the-gated-content-length", "chunked-content-length", "coverage:", "parse_header/frame", "parse_header/raises-only")
 
